@@ -11,6 +11,10 @@ open XotModel.Props
 #print axioms C02_scope_nearest
 #print axioms C02_scope_base
 #print axioms C02_scope_unprefixed_attribute
+#print axioms C02_scope_invariant
+#print axioms C02_scope_strings
+#print axioms C02_scope_element
+#print axioms C02_scope_attribute
 #print axioms C02_spelled_fragment
 #print axioms C02_spelled_document
 #print axioms C02_fragment_spelled
